@@ -158,48 +158,6 @@ def layoutcfg_part(tier: str, seed: int) -> List[dict]:
     return out
 
 
-_CMT_CLAUSE = re.compile(r"(?i)\bcomment\s*=?\s*'")
-_CMT_LINE = re.compile(r"^\s*(--|#)")
-
-
-def boundary_part(tier: str, seed: int) -> List[dict]:
-    """Configured numbers placed *on the boundary* of the input.  LT05 compares positions with max_line_length and
-    has two documented options that exempt comment clauses / comment lines; here every fixture with such a clause
-    or line is de-indented (so that the same fix run moves it) and max_line_length is set so that the clause starts
-    just inside the limit before re-indenting and beyond it afterwards (+2), or the line just fits / does not (+0).
-    Idempotence, convergence and layout claims must hold for these configurations like for any other."""
-    cap = MAXCHARS[tier]
-    items = []
-    for p, d in sq.dialect_corpus():
-        if os.path.getsize(p) > cap:
-            continue
-        src = sq.read(p)
-        if _CMT_CLAUSE.search(src) or any(_CMT_LINE.match(ln) and len(ln) > 30 for ln in src.splitlines()):
-            items.append((p, d, src))
-    nd = len({d for _, d, _ in items})
-    items = sq.stratified(items, lambda x: x[1], (3 if tier == "quick" else 12) * nd, seed)
-    out = []
-    for p, d, src in items:
-        text = re.sub(r"\n[ \t]+", "\n", src)
-        picks = []
-        for ln in text.splitlines():
-            m = _CMT_CLAUSE.search(ln)
-            if m and m.start() >= 12:
-                picks.append(("clause", m.start() + 1 + 2, {"ignore_comment_clauses": True}))
-            elif _CMT_LINE.match(ln) and len(ln) > 30:
-                picks.append(("line", len(ln), {"ignore_comment_lines": True}))
-        seen = set()
-        for kind, mll, opt in picks:
-            if (kind, mll) in seen or len(seen) >= (2 if tier == "quick" else 4):
-                continue
-            seen.add((kind, mll))
-            cfg = {"core": {"max_line_length": mll}, "rules": {"layout.long_lines": opt}}
-            for rs in ("layout", "all"):
-                out.append({"id": f"bnd:{kind}{mll}:{rs}:{os.path.relpath(p, sq.FIX)}", "sql": text, "dialect": d,
-                            "rules": RULESETS[rs], "configs": cfg, "mode": "layout" if rs == "layout" else "any"})
-    return out
-
-
 CP = {
     "CP01": ("capitalisation.keywords", "capitalisation_policy", ["consistent", "upper", "lower", "capitalise"]),
     "CP02": ("capitalisation.identifiers", "extended_capitalisation_policy",
@@ -299,7 +257,6 @@ PARTS: Dict[str, Callable[[str, int], List[dict]]] = {
     "cases_layout": cases_layout_part,
     "cases_templated_all": cases_templated_all_part,
     "layoutcfg": layoutcfg_part,
-    "boundary": boundary_part,
     "cap": cap_part,
 }
 
